@@ -17,13 +17,18 @@ void NEWTON_STEP(void)
     /* C16.step a Newton step solves with the Jacobian and the residual of the current x */
     __CPROVER_requires(jver == xver && fver == xver && xver < 0xFFFFFFFFu && steps < 0xFFFFFFFFu)
     __CPROVER_assigns(xver, steps) __CPROVER_ensures(xver == __CPROVER_old(xver) + 1 && steps == __CPROVER_old(steps) + 1);
+/* a Newton step written in two halves (solve, then apply) -- the same contract split */
+bool step_pending;
+void SOLVE_STEP(void) __CPROVER_requires(jver == xver && fver == xver) __CPROVER_assigns(step_pending) __CPROVER_ensures(step_pending);
+double DXNORM(void) __CPROVER_requires(step_pending) __CPROVER_assigns() __CPROVER_ensures(__CPROVER_return_value >= 0.0);
+void APPLY_STEP(void) __CPROVER_requires(step_pending && xver < 0xFFFFFFFFu && steps < 0xFFFFFFFFu) __CPROVER_assigns(xver, steps, step_pending) __CPROVER_ensures(xver == __CPROVER_old(xver) + 1 && steps == __CPROVER_old(steps) + 1 && !step_pending);
 bool ALLFINITE(void) __CPROVER_requires(1) __CPROVER_assigns() __CPROVER_ensures(__CPROVER_return_value == F_FINITE);
 double SQ_TOL;   /* the square of the tolerance: the multiplication is a trusted operation here (two copies of a double multiplier are not proved equal by SAT in reasonable time) */
 double SQUARE(double t) __CPROVER_requires(t == tolerance_) __CPROVER_assigns() __CPROVER_ensures(__CPROVER_return_value == SQ_TOL);
 
 bool constraint_project(void)
 __CPROVER_requires(xver == 0 && steps == 0 && tolerance_ == tolerance_)
-__CPROVER_assigns(xver, fver, jver, steps, last_norm, last_norm_ver)
+__CPROVER_assigns(xver, fver, jver, steps, last_norm, last_norm_ver, step_pending)
 /* C16.project success means: the residual last looked at belongs to the returned x and is below the tolerance */
 __CPROVER_ensures(__CPROVER_return_value ==> (last_norm_ver == xver && last_norm < tolerance_ * tolerance_))
 /* bounded work: at most maxIterations_ Newton steps */
@@ -41,7 +46,7 @@ __CPROVER_ensures((F_FINITE && last_norm_ver == xver && last_norm <= tolerance_ 
 /* ---- AtlasChart::psi: the same Newton scheme on a chart (residual b of the stacked system, matrix A) ---- */
 bool chart_psi(void)
 __CPROVER_requires(xver == 0 && steps == 0 && tolerance_ == tolerance_ && SQ_TOL == SQ_TOL)
-__CPROVER_assigns(xver, fver, jver, steps, last_norm, last_norm_ver)
+__CPROVER_assigns(xver, fver, jver, steps, last_norm, last_norm_ver, step_pending)
 /* C16.project success means: the residual last looked at belongs to the returned point and is below the constraint's tolerance squared */
 __CPROVER_ensures(__CPROVER_return_value ==> (last_norm_ver == xver && last_norm < SQ_TOL))
 __CPROVER_ensures(steps <= maxIterations_ && xver == steps)
